@@ -4,6 +4,7 @@ import Heathcliff.Proofs.C11N
 import Heathcliff.Proofs.C01Q
 import Heathcliff.Proofs.C07S
 import Heathcliff.Proofs.NonVac
+import Heathcliff.Proofs.C08B
 namespace HC
 open Finset
 
@@ -488,7 +489,10 @@ theorem c04r_applyGalois_decrypt_bfv {kl : KeyLevel} {l : Level} (hl : l.WF) (hd
     ∃ ct' m m', applyGalois kl l .bfv ⟨polys, false, cf⟩ g key = .ok ct' ∧
       bfvDecrypt l sk ⟨polys, false, cf⟩ = .ok m ∧ bfvDecrypt l sk ct' = .ok m' ∧
       (∀ c, c < l.n → m.getD c 0 < l.t.value) ∧
-      ∀ c, c < l.n → m'.getD c 0 = Spec.imod (c04k_sigma l.n g (fun i => ((m.getD i 0 : Nat) : Int)) c) l.t.value := by
+      (∀ c, c < l.n → m'.getD c 0 = Spec.imod (c04k_sigma l.n g (fun i => ((m.getD i 0 : Nat) : Int)) c) l.t.value) ∧
+      ct'.ntt = false ∧ ct'.polys.size = 2 ∧ (∀ k, k < 2 → RnsCanon l (ct'.polys.getD k #[])) ∧
+      ∀ c, c < l.n → (c04r_bfvNoise l.t.value (Spec.prodL (c01p_qvals l))
+        ((Spec.phase (c01p_qvals l) l.n sk ct'.polys.toList).getD c 0)).natAbs ≤ E + l.t.value * V := by
   have hq := c04r_levelQ_of_decOK hd
   obtain ⟨ct', a1, a2, a3, a4, a5, a6⟩ := c04r_applyGalois_spec_bfv hlo hq h2 hc h hg hg2 hkcc hke hs'
   obtain ⟨polys', ntt', cf'⟩ := ct'
@@ -538,17 +542,18 @@ theorem c04r_applyGalois_decrypt_bfv {kl : KeyLevel} {l : Level} (hl : l.WF) (hd
       ((Spec.phase (c01p_qvals l) l.n sk polys.toList).getD i 0)).natAbs < Spec.prodL (c01p_qvals l) :=
     fun i hi => by have := hE i hi; omega
   have hb0 : BehzDecryptOK l (Spec.phase (c01p_qvals l) l.n sk polys.toList) := c04r_behz_of_bound hE hm0
-  have hb1 : BehzDecryptOK l (Spec.phase (c01p_qvals l) l.n sk polys'.toList) := by
-    apply c04r_behz_of_bound (B := E + l.t.value * V) _ hm
+  have hN1 : ∀ j, j < l.n → (c04r_bfvNoise l.t.value (Spec.prodL (c01p_qvals l))
+      ((Spec.phase (c01p_qvals l) l.n sk polys'.toList).getD j 0)).natAbs ≤ E + l.t.value * V := by
     intro j hj
     have hn := hl.npow
     unfold c04r_bfvNoise
     rw [hn] at hsplit a6 hj hle hnoise ⊢
     rw [c04r_bfv_noise_sigma (k := l.k) (g := g) hQ hsplit (a6 j hj) (hnoise j hj)]
     exact hle j hj
+  have hb1 : BehzDecryptOK l (Spec.phase (c01p_qvals l) l.n sk polys'.toList) := c04r_behz_of_bound hN1 hm
   refine ⟨⟨polys', false, cf'⟩, _, _, a1,
     bfvDecrypt_eq_spec hl hd hsk (by omega) (fun k hk => hc k (by omega)) cf hb0,
-    bfvDecrypt_eq_spec hl hd hsk (by omega) (fun k hk => a5 k (by omega)) cf' hb1, ?_, ?_⟩
+    bfvDecrypt_eq_spec hl hd hsk (by omega) (fun k hk => a5 k (by omega)) cf' hb1, ?_, ?_, rfl, a4, a5, hN1⟩
   · intro c hc'
     unfold Spec.trim
     rw [c04r_trim_getD, c01p_bfvDecode_getD _ _ _ (by rw [hps]; exact hc')]
@@ -619,7 +624,7 @@ theorem c04r_rotate_bfv {kl : KeyLevel} {l : Level} (hl : l.WF) (hd : DecOK l) (
       ∀ i, i < l.n → (batchDecode T m').getD i 0 = (batchDecode T m).getD (c04r_slotIdx l.k step i) 0 := by
   obtain ⟨g1, g2, g3⟩ := c04r_elt_slot hk2 hstep
   have hn := hl.npow
-  obtain ⟨ct', m, m', b1, b2, b3, b4, b5⟩ := c04r_applyGalois_decrypt_bfv hl hd hlo h2 hc h g1 (by rw [hn]; omega) hkcc hsk
+  obtain ⟨ct', m, m', b1, b2, b3, b4, b5, -⟩ := c04r_applyGalois_decrypt_bfv hl hd hlo h2 hc h g1 (by rw [hn]; omega) hkcc hsk
     hke hs' hE hV hm
   refine ⟨ct', m, m', b1, b2, b3, fun i hi => ?_⟩
   rw [hn, ← hTk] at hi b4 b5
@@ -754,5 +759,506 @@ theorem c04r_applyGalois_decrypt_bgv {kl : KeyLevel} {l : Level} (hl : l.WF) (hd
     apply c04k_sigma_congr
     intro i _
     rw [c04r_trim_getD]
+
+/-- R3 (BGV, slot level) -/
+theorem c04r_rotate_bgv {kl : KeyLevel} {l : Level} (hl : l.WF) (hd : DecOK l) (hlo : c04k_LevelOf kl l)
+    (htb : c04r_SameTables kl l) (hb : c04t_BgvData kl) (hkt : kl.t.value = l.t.value)
+    {T : NTTTables} (hT : T.WF) (hTk : T.k = l.k) (hTm : T.modulus.value = l.t.value) (hk2 : 2 ≤ l.k)
+    {step : Int} {g : Nat} (hstep : eltFromStep l.k step = .ok g)
+    {polys : Array RnsPoly} {cf : Nat} {key : KSKey} (h2 : polys.size = 2)
+    (hc : ∀ k, k < 2 → RnsCanon l (polys.getD k #[]))
+    (hcf : cf < 2^63) (hcop : Nat.Coprime cf l.t.value)
+    (h : c04t_KSInput kl l.size ⟨polys, true, cf⟩ (polys.getD 1 #[]) key) (hkcc : (key.getD 0 #[]).size = 2)
+    {sk : Array Int} (hsk : sk.size = l.n) {s' : Nat → Int} {e : Nat → Nat → Int} {G : Nat → Int}
+    (hke : c04k_KeyEq kl l.size key (fun p => sk.getD p 0) s' e G)
+    (hs' : ∀ p, p < kl.n → s' p = c04k_sigma kl.n g (fun p => sk.getD p 0) p)
+    (het : ∀ i, i < l.size → ∀ p, p < kl.n → (kl.t.value : Int) ∣ e i p) {X V : Nat}
+    (hX : ∀ c, c < l.n → ((Spec.phase (c01p_qvals l) l.n sk (polys.toList.map (rnsIntt l))).getD c 0).natAbs ≤ X)
+    (hV : ∀ c, c < l.n →
+      (c04k_nuBgv kl l.size true (c04k_galRns l true g (polys.getD 1 #[])) key e (fun p => sk.getD p 0) c).natAbs ≤ V)
+    (hm : 2 * (X + V) < Spec.prodL (c01p_qvals l)) :
+    ∃ ct' m m', applyGalois kl l .bgv ⟨polys, true, cf⟩ g key = .ok ct' ∧ ct'.cf = cf ∧
+      bgvDecrypt l sk ⟨polys, true, cf⟩ = .ok m ∧ bgvDecrypt l sk ct' = .ok m' ∧
+      ∀ i, i < l.n → (batchDecode T m').getD i 0 = (batchDecode T m).getD (c04r_slotIdx l.k step i) 0 := by
+  obtain ⟨g1, g2, g3⟩ := c04r_elt_slot hk2 hstep
+  have hn := hl.npow
+  obtain ⟨ct', m, m', b1, b0, b2, b3, b4, b5⟩ := c04r_applyGalois_decrypt_bgv hl hd hlo htb hb hkt h2 hc hcf hcop h g1
+    (by rw [hn]; omega) hkcc hsk hke hs' het hX hV hm
+  refine ⟨ct', m, m', b1, b0, b2, b3, fun i hi => ?_⟩
+  rw [hn, ← hTk] at hi b4 b5
+  rw [← hTm] at b4 b5
+  rw [← hTk] at g3 ⊢
+  exact c04r_slots_of_coeff hT (by omega) g1 m m' b4 b5 i _ hi (g3 i hi).1 (g3 i hi).2
+
+/-! ## R4: CKKS — integer-level statement: `rotate_vector(step)` is σ_{3^s}, complex conjugation is σ_{2N−1} -/
+
+/-- the elements: for step ≠ 0 (|step| < N/2) `eltFromStep` returns 3^s mod 2N with s ≡ step (mod N/2), s = step for
+    positive steps and N/2 − |step| for negative ones; for step 0 (conjugation) it returns 2N − 1 -/
+theorem c04r_ckks_elt {k : Nat} {step : Int} {g : Nat} (he : eltFromStep k step = .ok g) (hk : 1 ≤ k) :
+    (step = 0 ∧ g = 2 * 2^k - 1) ∨
+    (step ≠ 0 ∧ step.natAbs < 2^k / 2 ∧ g = 3 ^ (if step < 0 then 2^k / 2 - step.natAbs else step.natAbs) % (2 * 2^k)) := by
+  by_cases h0 : step = 0
+  · subst h0
+    rw [eltFromStep_zero] at he
+    injection he with he
+    exact Or.inl ⟨rfl, he.symm⟩
+  · have hlt : step.natAbs < 2^k / 2 := by
+      by_contra hc
+      rw [eltFromStep_refuses' (Nat.le_of_not_lt hc) (Or.inl h0)] at he
+      cases he
+    rw [eltFromStep_spec hlt h0] at he
+    injection he with he
+    exact Or.inr ⟨h0, hlt, he.symm⟩
+
+/-- R4 (CKKS, NTT form): for g = `eltFromStep step` and a Galois key for g, `applyGalois` succeeds and the exact phase of the
+    result is σ_g of the exact input phase plus ν, modulo every level modulus (so rotate_vector(step) acts on the encoded
+    polynomial as X ↦ X^(3^s), conjugation as X ↦ X^(2N−1)); the slot-level statement over ℂ is out of scope -/
+theorem c04r_ckks_rotate {kl : KeyLevel} {l : Level} (hl : l.WF) (hlo : c04k_LevelOf kl l) {ct : Ct} {key : KSKey}
+    {step : Int} {g : Nat} (hstep : eltFromStep l.k step = .ok g) (hk1 : 1 ≤ l.k)
+    (h : c04t_KSInput kl l.size ct (ct.polys.getD 1 #[]) key) (hntt : ct.ntt = true)
+    (h2 : ct.polys.size = 2) (hkcc : (key.getD 0 #[]).size = 2)
+    {s s' : Nat → Int} {e : Nat → Nat → Int} {G : Nat → Int} (hke : c04k_KeyEq kl l.size key s s' e G)
+    (hs' : ∀ p, p < kl.n → s' p = c04k_sigma kl.n g s p) :
+    ((step = 0 ∧ g = 2 * 2^l.k - 1) ∨
+      (step ≠ 0 ∧ step.natAbs < 2^l.k / 2 ∧
+        g = 3 ^ (if step < 0 then 2^l.k / 2 - step.natAbs else step.natAbs) % (2 * 2^l.k))) ∧
+    ∃ ct', applyGalois kl l .ckks ct g key = .ok ct' ∧ ct'.ntt = true ∧ ct'.polys.size = 2 ∧
+      (∀ k, k < 2 → (ct'.polys.getD k #[]).size = l.size ∧ c04t_Canon kl l.size (ct'.polys.getD k #[])) ∧
+      ∀ j, j < l.size → ∀ c, c < kl.n →
+        c05u_phase2 kl.n (c04k_polyI (kl.tb j) true ((ct'.polys.getD 0 #[]).getD j #[]))
+            (c04k_polyI (kl.tb j) true ((ct'.polys.getD 1 #[]).getD j #[])) s c
+          ≡ c04k_sigma kl.n g (c05u_phase2 kl.n (c04k_polyI (kl.tb j) true ((ct.polys.getD 0 #[]).getD j #[]))
+              (c04k_polyI (kl.tb j) true ((ct.polys.getD 1 #[]).getD j #[])) s) c
+            + c04k_nuStd kl l.size true (c04k_galRns l true g (ct.polys.getD 1 #[])) key e s c
+              [ZMOD ((kl.m j).value : Int)] := by
+  have helt := c04r_ckks_elt hstep hk1
+  refine ⟨helt, ?_⟩
+  have hpos := Nat.two_pow_pos l.k
+  have hg : g % 2 = 1 ∧ g < 2 * 2^l.k := by
+    rcases helt with ⟨_, rfl⟩ | ⟨_, _, rfl⟩
+    · omega
+    · exact ⟨c04r_odd_of_mod (M := 2 * 2^l.k) (by omega) (c11n_three_pow_odd _) (Nat.mod_mod _ _), Nat.mod_lt _ (by omega)⟩
+  obtain ⟨ct', a1, a2, a3, a4, a5, a6⟩ := applyGalois_phase_sigma hlo (scheme := .ckks) h (Or.inr ⟨rfl, hntt⟩) h2 hg.1
+    (by rw [hl.npow]; omega) hkcc hke hs'
+  rw [hntt] at a2 a6
+  exact ⟨ct', a1, a2, a4, a5, a6⟩
+
+/-! ## composition: σ_h ∘ σ_g = σ_{gh}, and the NAF plan of `rotate_internal` -/
+
+section comp
+variable {R : Type} [CommRing R]
+
+theorem c04r_chi_comp {n h : Nat} (hn : 0 < n) (hh : h % 2 = 1) (t c : Nat) :
+    ∑ j ∈ range n, (c04k_chi n t j : R) * c04k_chi n (j * h) c = c04k_chi n (t * h) c := by
+  have e1 : ∑ j ∈ range n, (c04k_chi n t j : R) * c04k_chi n (j * h) c
+      = ∑ j ∈ range n, (fun j => (c04k_chi n (j * h) c : R)) j * c04k_chi n t j := by
+    apply Finset.sum_congr rfl; intro j _; ring
+  rw [e1, c04k_chi_single hn t]
+  have e2 : t * h = (t % n) * h + n * ((t / n) * h) := by
+    conv_lhs => rw [← Nat.mod_add_div t n]
+    ring
+  rw [e2, c04k_chi_add hn, pow_mul', Odd.neg_one_pow (Nat.odd_iff.mpr hh)]
+  ring
+
+/-- σ_h ∘ σ_g = σ_{g·h} -/
+theorem c04r_sigma_comp {n g h : Nat} (hn : 0 < n) (hh : h % 2 = 1) (a : Nat → R) (c : Nat) :
+    c04k_sigma n h (c04k_sigma n g a) c = c04k_sigma n (g * h) a c := by
+  unfold c04k_sigma
+  have e1 : ∀ j ∈ range n, (c04k_chi n (j * h) c : R) * ∑ i ∈ range n, c04k_chi n (i * g) j * a i
+      = ∑ i ∈ range n, (c04k_chi n (i * g) j * c04k_chi n (j * h) c) * a i := by
+    intro j _
+    rw [Finset.mul_sum]
+    apply Finset.sum_congr rfl; intro i _; ring
+  rw [Finset.sum_congr rfl e1, Finset.sum_comm]
+  apply Finset.sum_congr rfl
+  intro i _
+  rw [← Finset.sum_mul, c04r_chi_comp hn hh, Nat.mul_assoc]
+
+/-- σ_g depends only on g modulo 2n -/
+theorem c04r_sigma_mod {n : Nat} (hn : 0 < n) (g : Nat) (a : Nat → R) (c : Nat) :
+    c04k_sigma n (g % (2 * n)) a c = c04k_sigma n g a c := by
+  unfold c04k_sigma
+  apply Finset.sum_congr rfl
+  intro i _
+  congr 1
+  have e : i * g = i * (g % (2 * n)) + n * (2 * (i * (g / (2 * n)))) := by
+    conv_lhs => rw [← Nat.mod_add_div g (2 * n)]
+    ring
+  rw [e, c04k_chi_add hn, pow_mul]
+  norm_num
+
+end comp
+
+/-! ### `rotatePlan`: the NAF composition multiplies up to 3^steps -/
+
+/-- the exponent of 3 for a signed step: steps mod N/2 -/
+def c04r_stepExp (k : Nat) (d : Int) : Nat := (d % ((2^k / 2 : Nat) : Int)).toNat
+
+theorem c04r_row_pos {k : Nat} (hk : 2 ≤ k) : 0 < 2^k / 2 := by
+  have : 2^2 ≤ 2^k := Nat.pow_le_pow_right (by norm_num) hk
+  omega
+
+theorem c04r_three_pow_mod {k : Nat} (hk : 2 ≤ k) (x : Nat) :
+    (3 : ZMod (2 * 2^k))^(x % (2^k / 2)) = 3^x := by
+  conv_rhs => rw [← Nat.mod_add_div x (2^k / 2), pow_add, pow_mul, c11n_three_pow_row_z hk, one_pow, mul_one]
+
+theorem c04r_stepExp_cast {k : Nat} (hk : 2 ≤ k) (d : Int) :
+    ((c04r_stepExp k d : Nat) : Int) = d % ((2^k / 2 : Nat) : Int) := by
+  unfold c04r_stepExp
+  have := c04r_row_pos hk
+  exact Int.toNat_of_nonneg (Int.emod_nonneg _ (by omega))
+
+theorem c04r_stepExp_add {k : Nat} (hk : 2 ≤ k) (a b : Int) :
+    c04r_stepExp k (a + b) = (c04r_stepExp k a + c04r_stepExp k b) % (2^k / 2) := by
+  have h := c04r_row_pos hk
+  apply Int.ofNat.inj
+  show ((c04r_stepExp k (a + b) : Nat) : Int) = (((c04r_stepExp k a + c04r_stepExp k b) % (2^k / 2) : Nat) : Int)
+  rw [Int.natCast_mod, Nat.cast_add, c04r_stepExp_cast hk, c04r_stepExp_cast hk, c04r_stepExp_cast hk, ← Int.add_emod]
+
+theorem c04r_f_add {k : Nat} (hk : 2 ≤ k) (a b : Int) :
+    (3 : ZMod (2 * 2^k))^(c04r_stepExp k (a + b)) = 3^(c04r_stepExp k a) * 3^(c04r_stepExp k b) := by
+  rw [c04r_stepExp_add hk, c04r_three_pow_mod hk, pow_add]
+
+theorem c04r_f_half {k : Nat} (hk : 2 ≤ k) {d : Int} (hd : d.natAbs = 2^k / 2) :
+    (3 : ZMod (2 * 2^k))^(c04r_stepExp k d) = 1 := by
+  have : c04r_stepExp k d = 0 := by
+    unfold c04r_stepExp
+    rw [← hd]
+    rcases Int.natAbs_eq d with h | h
+    · rw [← h, Int.emod_self]; rfl
+    · have : d % ((d.natAbs : Nat) : Int) = 0 := by
+        apply Int.emod_eq_zero_of_dvd
+        exact ⟨-1, by omega⟩
+      rw [this]; rfl
+  rw [this, pow_zero]
+
+theorem c04r_elt_cast {k : Nat} (hk : 2 ≤ k) {d : Int} {g : Nat} (he : eltFromStep k d = .ok g) (h0 : d ≠ 0) :
+    ((g : Nat) : ZMod (2 * 2^k)) = 3^(c04r_stepExp k d) ∧ g % 2 = 1 ∧ g < 2 * 2^k := by
+  have hrow := c04r_row_pos hk
+  have hlt : d.natAbs < 2^k / 2 := by
+    by_contra hc
+    rw [eltFromStep_refuses' (Nat.le_of_not_lt hc) (Or.inl h0)] at he
+    cases he
+  rw [eltFromStep_spec hlt h0] at he
+  injection he with he
+  have hs : c04r_stepExp k d = if d < 0 then 2^k / 2 - d.natAbs else d.natAbs := by
+    unfold c04r_stepExp
+    split
+    · have e : d = ((2^k / 2 - d.natAbs : Nat) : Int) + (-1) * ((2^k / 2 : Nat) : Int) := by omega
+      rw [e, Int.add_mul_emod_self_right, ← Int.natCast_mod, Int.toNat_natCast, Nat.mod_eq_of_lt (by omega), ← e]
+    · have e : d = ((d.natAbs : Nat) : Int) := by omega
+      rw [e, ← Int.natCast_mod, Int.toNat_natCast, Nat.mod_eq_of_lt (by simpa using hlt), ← e]
+  have hpos := Nat.two_pow_pos k
+  refine ⟨by rw [← he, ZMod.natCast_mod, hs]; push_cast; rfl, ?_, by rw [← he]; exact Nat.mod_lt _ (by omega)⟩
+  exact c04r_odd_of_mod (M := 2 * 2^k) (by omega) (c11n_three_pow_odd _) (by rw [← he, Nat.mod_mod])
+
+/-- what is claimed of a plan for the signed step `d` -/
+def c04r_PlanOK (k : Nat) (keys : List Nat) (d : Int) (plan : List Nat) : Prop :=
+  (∀ g ∈ plan, g ∈ keys ∧ g % 2 = 1 ∧ g < 2 * 2^k) ∧ ((plan.prod : Nat) : ZMod (2 * 2^k)) = 3^(c04r_stepExp k d)
+
+theorem c04r_rotatePlan_succ (k : Nat) (keys : List Nat) (fuel : Nat) (steps : Int) :
+    rotatePlan k keys (fuel + 1) steps =
+      (if steps = 0 then pure [] else do
+        let e ← eltFromStep k steps
+        if keys.contains e then pure [e] else do
+        let ds ← naf steps
+        if ds.length = 1 then .error .refused else
+        ds.foldlM (fun acc d => do
+          if d.natAbs = 2^k / 2 then pure acc else do
+            let r ← rotatePlan k keys fuel d
+            pure (acc ++ r)) []) := rfl
+
+theorem c04r_plan_fold {k : Nat} (hk : 2 ≤ k) (keys : List Nat) (fuel : Nat)
+    (ih : ∀ d plan, rotatePlan k keys fuel d = .ok plan → c04r_PlanOK k keys d plan) :
+    ∀ (ds : List Int) (acc plan : List Nat),
+      ds.foldlM (fun acc d => do
+          if d.natAbs = 2^k / 2 then pure acc else do
+            let r ← rotatePlan k keys fuel d
+            pure (acc ++ r)) acc = .ok plan →
+      ∃ rest, plan = acc ++ rest ∧ c04r_PlanOK k keys ds.sum rest := by
+  intro ds
+  induction ds with
+  | nil =>
+    intro acc plan h
+    simp only [List.foldlM_nil, pure, Except.pure] at h
+    injection h with h
+    refine ⟨[], by rw [← h]; simp, by simp, ?_⟩
+    have : c04r_stepExp k 0 = 0 := by unfold c04r_stepExp; simp
+    simp [this]
+  | cons d ds ihd =>
+    intro acc plan h
+    rw [List.foldlM_cons] at h
+    by_cases hd : d.natAbs = 2^k / 2
+    · rw [if_pos hd] at h
+      simp only [pure, Except.pure, bind, Except.bind] at h
+      obtain ⟨rest, r1, r2, r3⟩ := ihd acc plan h
+      refine ⟨rest, r1, r2, ?_⟩
+      rw [List.sum_cons, c04r_f_add hk, c04r_f_half hk hd, one_mul]
+      exact r3
+    · rw [if_neg hd] at h
+      cases hr : rotatePlan k keys fuel d with
+      | error e => rw [hr] at h; simp only [bind, Except.bind] at h; cases h
+      | ok r =>
+        rw [hr] at h
+        simp only [pure, Except.pure, bind, Except.bind] at h
+        obtain ⟨rest, r1, r2, r3⟩ := ihd (acc ++ r) plan h
+        obtain ⟨q1, q2⟩ := ih d r hr
+        refine ⟨r ++ rest, by rw [r1, List.append_assoc], ?_, ?_⟩
+        · intro g hg
+          rcases List.mem_append.mp hg with hg | hg
+          · exact q1 g hg
+          · exact r2 g hg
+        · rw [List.prod_append, Nat.cast_mul, q2, r3, List.sum_cons, c04r_f_add hk]
+
+/-- `rotatePlan`: every element of the plan has a key, is an odd Galois element below 2N, and the product of the plan is
+    3^(steps mod N/2) modulo 2N — the composition of the plan's automorphisms is the rotation by `steps` -/
+theorem c04r_rotatePlan_ok {k : Nat} (hk : 2 ≤ k) (keys : List Nat) :
+    ∀ (fuel : Nat) (steps : Int) (plan : List Nat), rotatePlan k keys fuel steps = .ok plan → c04r_PlanOK k keys steps plan := by
+  intro fuel
+  induction fuel with
+  | zero => intro steps plan h; cases h
+  | succ fuel ih =>
+    intro steps plan h
+    rw [c04r_rotatePlan_succ] at h
+    by_cases h0 : steps = 0
+    · rw [if_pos h0] at h
+      injection h with h
+      subst h0
+      have : c04r_stepExp k 0 = 0 := by unfold c04r_stepExp; simp
+      refine ⟨by rw [← h]; simp, by rw [← h, this]; simp⟩
+    · rw [if_neg h0] at h
+      cases he : eltFromStep k steps with
+      | error e => rw [he] at h; cases h
+      | ok g =>
+        rw [he] at h
+        simp only [bind, Except.bind] at h
+        obtain ⟨g1, g2, g3⟩ := c04r_elt_cast hk he h0
+        by_cases hc : keys.contains g = true
+        · rw [if_pos hc] at h
+          injection h with h
+          rw [← h]
+          refine ⟨fun x hx => ?_, by simpa using g1⟩
+          rw [List.mem_singleton] at hx
+          subst hx
+          exact ⟨by simpa using hc, g2, g3⟩
+        · rw [if_neg hc] at h
+          cases hn : naf steps with
+          | error e => rw [hn] at h; cases h
+          | ok ds =>
+            rw [hn] at h
+            simp only at h
+            by_cases hl : ds.length = 1
+            · rw [if_pos hl] at h; cases h
+            · rw [if_neg hl] at h
+              obtain ⟨rest, r1, r2⟩ := c04r_plan_fold hk keys fuel ih ds [] plan h
+              have hv : -(2^31 : Int) < steps ∧ steps < 2^31 := by
+                unfold naf at hn
+                split at hn
+                · cases hn
+                · omega
+              obtain ⟨ds', hds', hsum, _⟩ := naf_spec hv
+              rw [hn] at hds'
+              injection hds' with hds'
+              rw [r1, List.nil_append, ← hsum, ← hds']
+              exact r2
+
+
+/-! ## R3, composed: a chain of `applyGalois` steps (the plan of `rotate_internal`) -/
+
+/-- the successive key-backed rotations of a plan: every step is an `applyGalois` with the key of its element -/
+def c04r_applyChain (kl : KeyLevel) (l : Level) (scheme : Scheme) (keyOf : Nat → KSKey) : List Nat → Ct → R Ct
+  | [], ct => pure ct
+  | g :: gs, ct => do
+    let ct' ← applyGalois kl l scheme ct g (keyOf g)
+    c04r_applyChain kl l scheme keyOf gs ct'
+
+/-- the ciphertext-independent part of `c04t_KSInput` concerning the key level -/
+structure c04r_KLOK (kl : KeyLevel) (l : Level) : Prop where
+  hkl : kl.WF
+  hsz : 2 ≤ kl.ms.size
+  hd : l.size + 1 ≤ kl.ms.size
+  hov : ∀ i, i ≤ l.size →
+    l.size * (4 * (kl.m (c04t_keyIndex kl l.size i)).value * (kl.m (c04t_keyIndex kl l.size i)).value) < 2^128
+  hinv : c04t_InvP kl l.size
+
+/-- a Galois key for the element g under the secret `sk`: the key part of `c04t_KSInput` and the key equation with s' = σ_g(s) -/
+structure c04r_GalKey (kl : KeyLevel) (l : Level) (sk : Array Int) (g : Nat) (key : KSKey) (e : Nat → Nat → Int)
+    (G : Nat → Int) : Prop where
+  hks : l.size ≤ key.size
+  hkcc : (key.getD 0 #[]).size = 2
+  hkey : ∀ i, i ≤ l.size → c04t_KeyCanonAt kl l.size (key.getD 0 #[]).size key (c04t_keyIndex kl l.size i)
+  hke : c04k_KeyEq kl l.size key (fun p => sk.getD p 0) (c04k_sigma kl.n g (fun p => sk.getD p 0)) e G
+
+theorem c04r_canon_to {kl : KeyLevel} {l : Level} (hlo : c04k_LevelOf kl l) {p : RnsPoly} (hc : RnsCanon l p) :
+    c04t_Canon kl l.size p := by
+  intro j hj
+  obtain ⟨c1, c2⟩ := hc.2 j hj
+  rw [hlo.n] at c1 c2
+  rw [hlo.q j hj] at c2
+  exact ⟨c1, c2⟩
+
+theorem c04r_ksinput {kl : KeyLevel} {l : Level} (hlo : c04k_LevelOf kl l) (hK : c04r_KLOK kl l) {sk : Array Int} {g : Nat}
+    {key : KSKey} {e : Nat → Nat → Int} {G : Nat → Int} (hG : c04r_GalKey kl l sk g key e G)
+    {polys : Array RnsPoly} (isNtt : Bool) (cf : Nat) (hc : ∀ k, k < 2 → RnsCanon l (polys.getD k #[])) :
+    c04t_KSInput kl l.size ⟨polys, isNtt, cf⟩ (polys.getD 1 #[]) key :=
+  ⟨hK.hkl, hK.hsz, hK.hd, hG.hks, c04r_canon_to hlo (hc 1 (by omega)), hG.hkey, hK.hov,
+    fun k hk => c04r_canon_to hlo (hc k (by rw [hG.hkcc] at hk; exact hk)), hK.hinv⟩
+
+theorem c04r_sigma_one {R : Type} [CommRing R] {n : Nat} (a : Nat → R) {c : Nat} (hc : c < n) : c04k_sigma n 1 a c = a c := by
+  unfold c04k_sigma
+  rw [Finset.sum_eq_single c]
+  · unfold c04k_chi
+    rw [Nat.mul_one, Nat.mod_eq_of_lt hc, if_pos rfl, Nat.div_eq_of_lt hc, pow_zero, one_mul]
+  · intro j hj hne
+    have := mem_range.mp hj
+    unfold c04k_chi
+    rw [Nat.mul_one, Nat.mod_eq_of_lt this, if_neg hne, zero_mul]
+  · intro h; exact absurd (mem_range.mpr hc) h
+
+theorem c04r_prod_odd (gs : List Nat) (h : ∀ g ∈ gs, g % 2 = 1) : gs.prod % 2 = 1 := by
+  induction gs with
+  | nil => rfl
+  | cons g gs ih =>
+    rw [List.prod_cons, Nat.mul_mod, h g (List.mem_cons_self ..), ih (fun x hx => h x (List.mem_cons_of_mem _ hx))]
+
+/-- per-step key-switching noise from the explicit bound of `switchKey_noise_bound`: ‖ν‖∞ ≤ ⌊W/P⌋,
+    W = dsz·A·n·Be + ⌊P/2⌋·(1 + ‖s‖₁) -/
+theorem c04r_step_noise {kl : KeyLevel} {l : Level} (hlo : c04k_LevelOf kl l) (hK : c04r_KLOK kl l) {sk : Array Int} {g : Nat}
+    (hg : g % 2 = 1) {key : KSKey} {e : Nat → Nat → Int} {G : Nat → Int} (hG : c04r_GalKey kl l sk g key e G)
+    {polys : Array RnsPoly} (cf : Nat) (hc : ∀ k, k < 2 → RnsCanon l (polys.getD k #[])) {A Be : Nat}
+    (hA : ∀ i, i < l.size → (kl.m i).value ≤ A) (he : ∀ i, i < l.size → ∀ p, p < kl.n → (e i p).natAbs ≤ Be) :
+    ∀ c, c < kl.n →
+      (c04k_nuStd kl l.size false (c04k_galRns l false g (polys.getD 1 #[])) key e (fun p => sk.getD p 0) c).natAbs
+        ≤ (l.size * (A * (kl.n * Be)) + kl.c04t_P / 2 * (1 + ∑ p ∈ range kl.n, (sk.getD p 0).natAbs)) / kl.c04t_P := by
+  intro c hc'
+  have hin := c04k_galois_input hlo (c04r_ksinput hlo hK hG false cf hc) hG.hkcc hg
+  have hb := switchKey_noise_bound hin hG.hke hA he c hc'
+  have hP : 0 < kl.c04t_P := by
+    have hsz := hK.hsz
+    obtain ⟨_, _, _, hmw⟩ := c04t_kl_comp hK.hkl (show kl.ms.size - 1 < kl.ms.size by omega)
+    have := hmw.two_le
+    unfold KeyLevel.c04t_P; omega
+  exact (Nat.le_div_iff_mul_le hP).mpr hb
+
+/-- R3 composed (BFV): a chain of `applyGalois` steps with Galois keys for the elements of `gs` decrypts to σ_{Π gs}(m) mod t,
+    provided the accumulated noise E + |gs|·t·V keeps the decode condition (noises add) -/
+theorem c04r_chain_bfv {kl : KeyLevel} {l : Level} (hl : l.WF) (hd : DecOK l) (hlo : c04k_LevelOf kl l) (hK : c04r_KLOK kl l)
+    {sk : Array Int} (hsk : sk.size = l.n) (keyOf : Nat → KSKey) (eOf : Nat → Nat → Nat → Int) (GOf : Nat → Nat → Int)
+    {A Be V : Nat} (hA : ∀ i, i < l.size → (kl.m i).value ≤ A)
+    (hV : (l.size * (A * (kl.n * Be)) + kl.c04t_P / 2 * (1 + ∑ p ∈ range kl.n, (sk.getD p 0).natAbs)) / kl.c04t_P ≤ V) :
+    ∀ (gs : List Nat) (polys : Array RnsPoly) (cf E : Nat), polys.size = 2 → (∀ k, k < 2 → RnsCanon l (polys.getD k #[])) →
+      (∀ g ∈ gs, g % 2 = 1 ∧ g ≤ 2 * l.n ∧ c04r_GalKey kl l sk g (keyOf g) (eOf g) (GOf g) ∧
+        ∀ i, i < l.size → ∀ p, p < kl.n → (eOf g i p).natAbs ≤ Be) →
+      (∀ c, c < l.n → (c04r_bfvNoise l.t.value (Spec.prodL (c01p_qvals l))
+        ((Spec.phase (c01p_qvals l) l.n sk polys.toList).getD c 0)).natAbs ≤ E) →
+      2 * l.tool.gamma.value * (E + gs.length * (l.t.value * V)) + 2 * l.size * Spec.prodL (c01p_qvals l)
+        ≤ Spec.prodL (c01p_qvals l) * l.tool.gamma.value →
+      ∃ ct' m m', c04r_applyChain kl l .bfv keyOf gs ⟨polys, false, cf⟩ = .ok ct' ∧
+        bfvDecrypt l sk ⟨polys, false, cf⟩ = .ok m ∧ bfvDecrypt l sk ct' = .ok m' ∧
+        (∀ c, c < l.n → m.getD c 0 < l.t.value) ∧
+        ∀ c, c < l.n → m'.getD c 0 = Spec.imod (c04k_sigma l.n gs.prod (fun i => ((m.getD i 0 : Nat) : Int)) c) l.t.value := by
+  intro gs
+  induction gs with
+  | nil =>
+    intro polys cf E h2 hc _ hE hm
+    have hq := c04r_levelQ_of_decOK hd
+    have hn0 := c01q_n_pos hl
+    have ht : 0 < l.t.value := by have := hd.tool.twf.two_le; rw [hd.t_eq] at this; omega
+    have hm0 : 2 * l.tool.gamma.value * E + 2 * l.size * Spec.prodL (c01p_qvals l)
+        ≤ Spec.prodL (c01p_qvals l) * l.tool.gamma.value := by simpa using hm
+    have hb0 : BehzDecryptOK l (Spec.phase (c01p_qvals l) l.n sk polys.toList) := c04r_behz_of_bound hE hm0
+    have hne : polys.toList ≠ [] := by rw [c04r_toList2 polys h2 #[]]; simp
+    have hsz : ∀ p ∈ polys.toList, p.size = l.size := fun p hp =>
+      (c01q_polys_mem (polys := polys) (fun k hk => hc k (by omega)) p hp).1
+    have hps := (c01q_phase_general hq (sk := sk) hne hsz hn0).1
+    have hlt : ∀ c, c < l.n → (Spec.trim (Spec.bfvDecode l.t.value (Spec.prodL (c01p_qvals l))
+        (Spec.phase (c01p_qvals l) l.n sk polys.toList))).getD c 0 < l.t.value := by
+      intro c hc'
+      unfold Spec.trim
+      rw [c04r_trim_getD, c01p_bfvDecode_getD _ _ _ (by rw [hps]; exact hc')]
+      exact c07l_imod_lt ht _
+    refine ⟨_, _, _, rfl, bfvDecrypt_eq_spec hl hd hsk (by omega) (fun k hk => hc k (by omega)) cf hb0,
+      bfvDecrypt_eq_spec hl hd hsk (by omega) (fun k hk => hc k (by omega)) cf hb0, hlt, fun c hc' => ?_⟩
+    rw [List.prod_nil, c04r_sigma_one _ hc', c04r_imod_natCast, Nat.mod_eq_of_lt (hlt c hc')]
+  | cons g gs ih =>
+    intro polys cf E h2 hc hgs hE hm
+    obtain ⟨g1, g2, g3, g4⟩ := hgs g (List.mem_cons_self ..)
+    have hin := c04r_ksinput hlo hK g3 false cf hc
+    have hVc : ∀ c, c < l.n →
+        (c04k_nuStd kl l.size false (c04k_galRns l false g (polys.getD 1 #[])) (keyOf g) (eOf g) (fun p => sk.getD p 0) c).natAbs
+          ≤ V := fun c hc' =>
+      le_trans (c04r_step_noise hlo hK g1 g3 cf hc hA g4 c (by rw [← hlo.n]; exact hc')) hV
+    have hm1 : 2 * l.tool.gamma.value * (E + l.t.value * V) + 2 * l.size * Spec.prodL (c01p_qvals l)
+        ≤ Spec.prodL (c01p_qvals l) * l.tool.gamma.value := by
+      have : 2 * l.tool.gamma.value * (E + l.t.value * V)
+          ≤ 2 * l.tool.gamma.value * (E + (g :: gs).length * (l.t.value * V)) := by
+        apply Nat.mul_le_mul_left
+        rw [List.length_cons, Nat.succ_mul]
+        omega
+      omega
+    obtain ⟨ct1, m, m1, b1, b2, b3, b4, b5, b6, b7, b8, b9⟩ := c04r_applyGalois_decrypt_bfv hl hd hlo h2 hc hin g1 g2 g3.hkcc
+      hsk g3.hke (fun _ _ => rfl) hE hVc hm1
+    obtain ⟨polys1, ntt1, cf1⟩ := ct1
+    simp only at b6 b7 b8 b9
+    subst b6
+    have hm2 : 2 * l.tool.gamma.value * (E + l.t.value * V + gs.length * (l.t.value * V))
+        + 2 * l.size * Spec.prodL (c01p_qvals l) ≤ Spec.prodL (c01p_qvals l) * l.tool.gamma.value := by
+      have : E + l.t.value * V + gs.length * (l.t.value * V) = E + (g :: gs).length * (l.t.value * V) := by
+        rw [List.length_cons, Nat.succ_mul]; omega
+      rw [this]; exact hm
+    obtain ⟨ct2, m1', m2, d1, d2, d3, d4, d5⟩ := ih polys1 cf1 (E + l.t.value * V) b7 b8
+      (fun x hx => hgs x (List.mem_cons_of_mem _ hx)) b9 hm2
+    rw [b3] at d2
+    injection d2 with d2
+    subst d2
+    refine ⟨ct2, m, m2, ?_, b2, d3, b4, fun c hc' => ?_⟩
+    · show (applyGalois kl l .bfv ⟨polys, false, cf⟩ g (keyOf g) >>= fun ct' => c04r_applyChain kl l .bfv keyOf gs ct') = _
+      rw [b1]
+      exact d1
+    · have ht : 0 < l.t.value := by have := hd.tool.twf.two_le; rw [hd.t_eq] at this; omega
+      have hodd : gs.prod % 2 = 1 := c04r_prod_odd gs (fun x hx => (hgs x (List.mem_cons_of_mem _ hx)).1)
+      rw [d5 c hc', List.prod_cons, ← c04r_sigma_comp (c01q_n_pos hl) hodd]
+      apply c04r_imod_modEq ht
+      apply c04r_sigma_modEq
+      intro i hi
+      rw [b5 i hi]
+      exact c04r_imod_cast_modEq ht _
+
+/-- R3 composed with `rotatePlan` (BFV, slot level): if `rotate_internal`'s plan for `steps` exists given the available key
+    elements `keys`, all of which carry genuine Galois keys, then executing the plan step by step (`c04r_applyChain`) yields a
+    ciphertext decrypting to the plaintext whose slot rows are rotated by `steps` (mod N/2), under the accumulated-noise margin -/
+theorem c04r_rotatePlan_bfv {kl : KeyLevel} {l : Level} (hl : l.WF) (hd : DecOK l) (hlo : c04k_LevelOf kl l) (hK : c04r_KLOK kl l)
+    {T : NTTTables} (hT : T.WF) (hTk : T.k = l.k) (hTm : T.modulus.value = l.t.value) (hk2 : 2 ≤ l.k)
+    {sk : Array Int} (hsk : sk.size = l.n) (keyOf : Nat → KSKey) (eOf : Nat → Nat → Nat → Int) (GOf : Nat → Nat → Int)
+    {A Be V : Nat} (hA : ∀ i, i < l.size → (kl.m i).value ≤ A)
+    (hV : (l.size * (A * (kl.n * Be)) + kl.c04t_P / 2 * (1 + ∑ p ∈ range kl.n, (sk.getD p 0).natAbs)) / kl.c04t_P ≤ V)
+    {keys : List Nat} (hkeys : ∀ g ∈ keys, c04r_GalKey kl l sk g (keyOf g) (eOf g) (GOf g) ∧
+      ∀ i, i < l.size → ∀ p, p < kl.n → (eOf g i p).natAbs ≤ Be)
+    {fuel : Nat} {steps : Int} {plan : List Nat} (hplan : rotatePlan l.k keys fuel steps = .ok plan)
+    {polys : Array RnsPoly} {cf E : Nat} (h2 : polys.size = 2) (hc : ∀ k, k < 2 → RnsCanon l (polys.getD k #[]))
+    (hE : ∀ c, c < l.n → (c04r_bfvNoise l.t.value (Spec.prodL (c01p_qvals l))
+      ((Spec.phase (c01p_qvals l) l.n sk polys.toList).getD c 0)).natAbs ≤ E)
+    (hm : 2 * l.tool.gamma.value * (E + plan.length * (l.t.value * V)) + 2 * l.size * Spec.prodL (c01p_qvals l)
+      ≤ Spec.prodL (c01p_qvals l) * l.tool.gamma.value) :
+    (∀ g ∈ plan, g ∈ keys) ∧ plan.prod % (2 * 2^l.k) = 3 ^ c04r_stepExp l.k steps % (2 * 2^l.k) ∧
+    ∃ ct' m m', c04r_applyChain kl l .bfv keyOf plan ⟨polys, false, cf⟩ = .ok ct' ∧
+      bfvDecrypt l sk ⟨polys, false, cf⟩ = .ok m ∧ bfvDecrypt l sk ct' = .ok m' ∧
+      ∀ i, i < l.n → (batchDecode T m').getD i 0 =
+        (batchDecode T m).getD (c04r_rotIdx l.k (c04r_stepExp l.k steps) i) 0 := by
+  obtain ⟨p1, p2⟩ := c04r_rotatePlan_ok hk2 keys fuel steps plan hplan
+  have hn := hl.npow
+  have hprod : plan.prod % (2 * 2^l.k) = 3 ^ c04r_stepExp l.k steps % (2 * 2^l.k) := by
+    rw [← ZMod.natCast_eq_natCast_iff', p2]; push_cast; rfl
+  refine ⟨fun g hg => (p1 g hg).1, hprod, ?_⟩
+  obtain ⟨ct', m, m', b1, b2, b3, b4, b5⟩ := c04r_chain_bfv hl hd hlo hK hsk keyOf eOf GOf hA hV plan polys cf E h2 hc
+    (fun g hg => ⟨(p1 g hg).2.1, by rw [hn]; exact (p1 g hg).2.2.le, (hkeys g (p1 g hg).1).1, (hkeys g (p1 g hg).1).2⟩) hE hm
+  refine ⟨ct', m, m', b1, b2, b3, fun i hi => ?_⟩
+  have hodd := c04r_prod_odd plan (fun g hg => (p1 g hg).2.1)
+  rw [hn, ← hTk] at hi b4 b5
+  rw [← hTm] at b4 b5
+  rw [← hTk] at hprod hk2 ⊢
+  refine c04r_slots_of_coeff hT (by omega) hodd m m' b4 b5 i _ hi (c04r_rotIdx_lt hk2 hi) ?_
+  rw [← Nat.mul_mod_mod, hprod, Nat.mul_mod_mod]
+  exact slotExp_rotate hk2 hi
 
 end HC
